@@ -24,18 +24,18 @@ type Violation struct {
 
 // Result is what a child reports.
 type Result struct {
-	Prop         string           `json:"prop"`
-	Batch        int              `json:"batch"`
-	Done         bool             `json:"done"`
-	Evaluations  int64            `json:"evaluations"`
-	Hashes       []uint64         `json:"hashes"` // hashes of the distinct non-trivial cases
-	Counters     map[string]int64 `json:"counters"`
+	Prop         string            `json:"prop"`
+	Batch        int               `json:"batch"`
+	Done         bool              `json:"done"`
+	Evaluations  int64             `json:"evaluations"`
+	Hashes       []uint64          `json:"hashes"` // hashes of the distinct non-trivial cases
+	Counters     map[string]int64  `json:"counters"`
 	Samples      []json.RawMessage `json:"samples"`
-	Violations   []Violation      `json:"violations"`
-	Inconclusive []string         `json:"inconclusive"`
-	Exhaustive   bool             `json:"exhaustive"`
-	Notes        []string         `json:"notes"`
-	WallS        float64          `json:"wall_s"`
+	Violations   []Violation       `json:"violations"`
+	Inconclusive []string          `json:"inconclusive"`
+	Exhaustive   bool              `json:"exhaustive"`
+	Notes        []string          `json:"notes"`
+	WallS        float64           `json:"wall_s"`
 }
 
 // Ctx is the context handed to a monitor.
